@@ -386,7 +386,7 @@ func (g *G) fnAttrsFor(group bool) []string {
 		}
 	}
 	if g.chance("allocsize", 1, 12) {
-		out = append(out, "vscale_range(1,16)")
+		out = append(out, g.pick("vsr", []string{"vscale_range(1,16)", "vscale_range(8)", "vscale_range(2,2)"}))
 	}
 	return out
 }
